@@ -127,9 +127,11 @@ pub enum Outcome {
 thread_local! { static PANIC_AT: std::cell::RefCell<String> = std::cell::RefCell::new(String::new()); }
 /// format_code behind catch_unwind; the panic message and the place it was raised (crate-relative file:line, written by the
 /// hook of silence_panics) are kept for the replay file: "<message> @<place>".
-pub fn format_guarded(src: &str, cfg: Config, range: Option<Range>) -> Outcome {
+pub fn format_guarded(src: &str, cfg: Config, range: Option<Range>) -> Outcome { format_guarded_v(src, cfg, range, false) }
+/// the same with the library's own output verification switched on (`--verify`): its code must not panic either
+pub fn format_guarded_v(src: &str, cfg: Config, range: Option<Range>, verify: bool) -> Outcome {
     PANIC_AT.with(|p| p.borrow_mut().clear());
-    let r = std::panic::catch_unwind(|| format_code(src, cfg, range, OutputVerification::None));
+    let r = std::panic::catch_unwind(|| format_code(src, cfg, range, if verify { OutputVerification::Full } else { OutputVerification::None }));
     match r {
         Ok(Ok(s)) => Outcome::Ok(s),
         Ok(Err(Error::ParseError(_))) => Outcome::ParseError,
